@@ -27,8 +27,8 @@ def make_case_2d(rng, max_h=6, max_w=7):
     h, w = Z.gen_shape(rng, max_h, max_w)
     n = h * w
     z, zdt, ids, layout, zkinds = Z.gen_zones(rng, h, w)
-    v, vdt, vkind, vkinds = Z.gen_values(rng, n, kind=rng.choice(["digits", "digits", "digits", "ints", "dyadic"]))
-    nodata = Z.gen_nodata(rng, v, ids)
+    v, vdt, vkind, vkinds, nodata = Z.gen_values_nodata(rng, n, ids,
+                                                        kind=rng.choice(["digits", "digits", "digits", "ints", "dyadic"]))
     present = Z.finite_ids(np.array(z).astype(zdt).astype(float).tolist())
     c = dict(h=h, w=w, zones=[tok(x) for x in z], zdtype=zdt, values=[tok(x) for x in v], vdtype=vdt,
              nodata=None if nodata is None else tok(nodata), layout=layout, zkinds=zkinds, vkind=vkind, vkinds=vkinds,
@@ -41,6 +41,19 @@ def make_case_2d(rng, max_h=6, max_w=7):
     return c
 
 
+def bias_selection(rng, c):
+    """steer a 2-D case towards the corner `percentage` x `cat_ids a strict subset of the categories present`
+    (the denominator of a percentage is every valid cell of the zone, whatever columns are shown)"""
+    if rng.random() < 0.4:
+        c["agg"] = "percentage"
+    cats = present_cats(c)
+    if len(cats) >= 2 and rng.random() < 0.4:
+        sel = rng.sample(cats, rng.randint(1, len(cats) - 1))
+        rng.shuffle(sel)
+        c["cat_ids"] = [tok(x) for x in sel]
+    return c
+
+
 def make_case_3d(rng, max_h=5, max_w=5):
     h, w = Z.gen_shape(rng, max_h, max_w)
     n = h * w
@@ -50,14 +63,18 @@ def make_case_3d(rng, max_h=5, max_w=5):
     kind = rng.choice(["digits", "ints", "dyadic"])
     layers, vdt = [], None
     nonfin = rng.random() < 0.6
+    spec = Z.near_spec(rng) if rng.random() < Z.NEAR_RATE else None     # every layer clustered around one nodata value
     for lab in labels:
-        v, dt, _, _ = Z.gen_values(rng, n, kind=kind, nonfinite=nonfin)
+        if spec:
+            v, dt, kind, _ = Z.near_values(rng, n, spec, nonfinite=nonfin)
+        else:
+            v, dt, _, _ = Z.gen_values(rng, n, kind=kind, nonfinite=nonfin)
         vdt = vdt or dt
         layers.append([tok(float(lab)), [tok(x) for x in v]])
     if any(t in ("nan", "inf", "-inf") for l in layers for t in l[1]) and not vdt.startswith("float"):
         vdt = "float64"
     allv = [untok(t) for l in layers for t in l[1]]
-    nodata = Z.gen_nodata(rng, allv, ids)
+    nodata = spec["nodata"] if spec else Z.gen_nodata(rng, allv, ids)
     present = Z.finite_ids(np.array(z).astype(zdt).astype(float).tolist())
     c = dict(h=h, w=w, zones=[tok(x) for x in z], zdtype=zdt, layers=layers, vdtype=vdt,
              nodata=None if nodata is None else tok(nodata), layout=layout, zkinds=zkinds, vkind=kind,
@@ -90,33 +107,44 @@ def wanted_cats(c):
 
 
 def expected_entry(c, z, cat):
-    """exact entry for zone z / category cat: Fraction | None (NaN) | 'raises' ; second item: must be rooted"""
+    """exact entry for zone z / category cat: (Fraction | None (NaN) | 'raises', must be rooted, the valid cells (3-D))"""
     if "layers" in c:
         k = [untok(l[0]) for l in c["layers"]].index(cat)
         cells = Z.valid_cells(c, z, values_tokens=c["layers"][k][1])
         agg = c["agg"]
         if not cells:
             if agg in ("count", "sum"):
-                return Fraction(0), False
+                return Fraction(0), False, cells
             if agg in ("max", "min"):
-                return "raises", False
-            return None, False
-        return Z.exact_stat(agg, cells), agg == "std"
+                return "raises", False, cells
+            return None, False, cells
+        return Z.exact_stat(agg, cells), agg == "std", cells
     cells = Z.valid_cells(c, z)
     cnt = sum(1 for v in cells if v == Fraction(cat))
     if c["agg"] == "count":
-        return Fraction(cnt), False
+        return Fraction(cnt), False, None
     if not cells:
-        return None, False
-    return Fraction(cnt * 100, len(cells)), False
+        return None, False, None
+    return Fraction(cnt * 100, len(cells)), False, None
 
 
 def expected_row(c, z, cats):
     return [expected_entry(c, z, cat) for cat in cats]
 
 
+def entry_ok(c, g, exp):
+    """2-D: counts exact, percentages to rounding; 3-D: the aggregate with the tolerance of that statistic on those cells
+    (max / min / count exact, var / std to the rounding of a variance of numbers of that magnitude)"""
+    e, rooted, cells = exp
+    if e == "raises":
+        return False
+    if "layers" in c:
+        return Z.stat_close(c["agg"], g, e, c["vdtype"], cells)
+    return Z.xtab_entry_close(g, e, c["vdtype"], rooted)
+
+
 def row_ok(c, got_row, exp_row):
-    return all(e != "raises" and Z.xtab_entry_close(g, e, c["vdtype"], rooted) for g, (e, rooted) in zip(got_row, exp_row))
+    return all(entry_ok(c, g, exp) for g, exp in zip(got_row, exp_row))
 
 
 def oracle(c, st, out):
@@ -124,7 +152,7 @@ def oracle(c, st, out):
     wz = Z.wanted_zones(c)
     wc = wanted_cats(c)
     exp = {z: expected_row(c, z, wc) for z in wz}
-    must_raise = any(e == "raises" for row in exp.values() for e, _ in row)
+    must_raise = any(e[0] == "raises" for row in exp.values() for e in row)
     facts = Z.source_facts()
     feat_ninf = bool(np.isneginf(Z.case_arrays(c)[0].astype(np.float64)).any()) and not facts.get("stripIndices")
     generic = "crosstab:neg-inf-zone-cells-shift-slices" if feat_ninf else "crosstab:table"
@@ -143,7 +171,7 @@ def oracle(c, st, out):
     for k, z in enumerate(out["zone"]):
         got = [out["rows"][k][j] for j in col]
         if not row_ok(c, got, exp[z]):
-            j = next(i for i, (g, (e, r)) in enumerate(zip(got, exp[z])) if not Z.xtab_entry_close(g, e, c["vdtype"], r))
+            j = next(i for i, (g, e) in enumerate(zip(got, exp[z])) if not entry_ok(c, g, e))
             e = exp[z][j][0]
             bad = (z, wc[j], got[j], None if e is None else float(e))
             break
@@ -199,10 +227,16 @@ def compare(c, real_st, real, rep):
         return f"columns: model {m['cats']} real {real['cats']}"
     if m["rows"] is None or len(m["rows"]) != len(real["rows"]):
         return "row counts differ"
-    rooted = c["agg"] == "std"
+    three = "layers" in c
     for k, (mr, rr) in enumerate(zip(m["rows"], real["rows"])):
         for j, (mv, gv) in enumerate(zip(mr, rr)):
-            if not Z.xtab_entry_close(gv, mv, c["vdtype"], rooted and mv is not None):
+            if three:       # the model's std entry is the variance (stat_close roots it)
+                lay = [untok(l[0]) for l in c["layers"]].index(m["cats"][j])
+                cells = Z.valid_cells(c, m["zone"][k], values_tokens=c["layers"][lay][1]) if mv is not None else None
+                same = Z.stat_close(c["agg"], gv, mv, c["vdtype"], cells)
+            else:
+                same = Z.xtab_entry_close(gv, mv, c["vdtype"], False)
+            if not same:
                 return f"zone {m['zone'][k]} cat {m['cats'][j]}: model {None if mv is None else float(mv)} real {gv}"
     return None
 
@@ -214,7 +248,35 @@ def tags_of(c, stream):
             f"nodata:{'none' if c.get('nodata') is None else 'set'}"] + [f"zone-cells:{k}" for k in c.get("zkinds", [])]
 
 
+def check_scale(r, c, stream):
+    """overflow-scale size class: one huge raster, judged by the histogram oracle only (far too large for the driver)"""
+    key = dict(c, stream=stream)
+    r.case(key, desc=None, nontrivial=True, tags=[f"stream:{stream}", f"agg:{c['agg']}", f"zdtype:{c['zdtype']}",
+                                                  f"vdtype:{c['vdtype']}", "size:overflow-scale"])
+    st, out, hist = Z.run_scale_crosstab(c, "dask" if stream.startswith("dask") else "numpy")
+    bad = Z.oracle_scale_crosstab(c, st, out, hist)
+    if bad:
+        big = max(max(d.values(), default=0) for d in hist.values())
+        r.fail("crosstab:table:overflow-scale", f"[{stream}] {c['h']}x{c['w']} raster, largest (zone, category) count {big}: " + bad, key)
+    if st == "ok" and c["agg"] == "percentage":
+        # the model at this scale: the percentage expression translated from the source (Gen.Zonal.pctNumpy / pctDask),
+        # evaluated in the integer width of the breaks, on the counts of the histogram
+        zs = sorted(hist)
+        cats = sorted({v for d in hist.values() for v in d})
+        back = "dask" if stream.startswith("dask") else "numpy"
+        cells = [(k, j, sum(hist[z].values()), hist[z].get(v, 0)) for k, z in enumerate(zs) for j, v in enumerate(cats)]
+        reps = Driver().ask([f"xpct total={t} n={n} backend={back}" for _, _, t, n in cells])
+        for (k, j, t, n), rep in zip(cells, reps):
+            got = out["rows"][k][j] if k < len(out["rows"]) and j < len(out["rows"][k]) else None
+            want = None if rep == "nan" else float(Z.untok_exact(rep))
+            if got is None or not (got != got if want is None else Z.close(got, want, rel=1e-6, abs_=1e-9)):
+                r.disagree("crosstab-" + stream, key, f"zone {zs[k]} cat {cats[j]}: real {got}", f"model (xpct total={t} n={n}) {rep}")
+                break
+
+
 def check_case(r, c, stream, pending):
+    if c.get("scale"):
+        return check_scale(r, c, stream)
     backend = "dask" if stream.startswith("dask") else "numpy"
     key = dict(c, stream=stream)
     zch = None
@@ -237,6 +299,10 @@ def run(r, scale=1):
               "distinct levels / ints / dyadic with NaN / inf cells, nodata none / present value / zone id / NaN, zone_ids and "
               "cat_ids none / shuffled subsets incl. skipped present categories and absent ids, agg count / percentage; "
               "3-D: 1-4 labelled layers, the seven aggregates; Dask backend with matching chunks (random compositions); "
+              "15 % of the value rasters clustered around the nodata value (nodata +- 1..3 for |nodata| up to 1e12, the "
+              "neighbouring floats / a few ppm off, tiny values around nodata 0); zones also as rectangles on a NaN "
+              "background; overflow-scale size class: a ~4800x4800 int8/int16 raster with one (zone, category) pair of more "
+              "than 2^31/100 cells, count and percentage judged by a bincount histogram; "
               "non-trivial = more than one cell")
     r.assumptions += ["np.argsort contract checked on every case by the driver; np.unique / np.sort modelled by verified insertion sorts",
                       "exact arithmetic on small integers / dyadics; counts compared exactly, percentages and 3-D aggregates to rounding",
@@ -253,11 +319,18 @@ def run(r, scale=1):
     for _ in range(n[1]):
         check_case(r, make_case_3d(r.rng), "3d", pending)
     for _ in range(n[2]):
-        check_case(r, make_case_2d(r.rng, 4, 5), "dask-2d", pending)
+        check_case(r, bias_selection(r.rng, make_case_2d(r.rng, 4, 5)), "dask-2d", pending)
     for _ in range(n[3]):
         c = make_case_3d(r.rng, 4, 4)
         c["agg"] = "count"
         check_case(r, c, "dask-3d", pending)
+    # overflow scale: quick = one raster (numpy), both aggregations; thorough = two more and one on dask
+    for k in range(1 if r.tier == "quick" else 3):
+        c = Z.make_scale_case(r.rng)
+        for agg in ("percentage", "count"):
+            check_scale(r, dict(c, agg=agg), "scale")
+        if r.tier != "quick" and k == 0:
+            check_scale(r, dict(c, agg="percentage"), "dask-scale")
     replies = Driver().ask([p[3] for p in pending])
     for (key, st, out, req), rep in zip(pending, replies):
         bad = compare(key, st, out, rep)
